@@ -252,6 +252,13 @@ def run(ctx):
     stamp_position_rule(ctx, "C02.R6", ("noodles_bgzf::io::reader::", "noodles_bgzf::io::multithreaded_reader::", "noodles_bgzf::r#async::io::reader::",
                                         "<noodles_bgzf::r#async::io::reader::", "<noodles_bgzf::io::reader::", "<noodles_bgzf::io::multithreaded_reader::"), 4)
 
+    ctx.rule("C02.R7", "every seek request seeks: the async reader's poll_seek state machine cannot answer Ready(Ok) from its resting state "
+                       "without the arm that seeks the inner reader (defect F29: a repeated request for the same position was a no-op)")
+    from .c16 import state_machine_action_rule
+    state_machine_action_rule(ctx, "C02.R7", "noodles_bgzf::r#async::io::reader::Reader::<R>::poll_seek", "noodles_bgzf::r#async::io::reader::SeekState",
+                              r"inflater::Inflater::<R>::poll_seek$", ["noodles_bgzf::r#async::io::reader::builder::Builder::build_from_reader"],
+                              "seeking the inner block reader")
+
 
 def _mentions_field(st, name):
     if st[0] != "=":
